@@ -392,6 +392,7 @@ func c17Reachable(r *Run, depth, shard int) {
 		Act("updateOwner(A0) by A0", &cctptypes.MsgUpdateOwner{From: Owner.Str, NewOwner: Owner.Str}),
 		Act("setMaxBurnAmountPerMessage(UATOM,2^200) by A3", &cctptypes.MsgSetMaxBurnAmountPerMessage{From: TokenCtl.Str, LocalToken: "UATOM", Amount: intFromBig(bigPow2(200))}),
 		Act("setMaxBurnAmountPerMessage(uosmo,0) by A3", &cctptypes.MsgSetMaxBurnAmountPerMessage{From: TokenCtl.Str, LocalToken: "uosmo", Amount: math.NewInt(0)}),
+		Act("updateMaxMessageBodySize(0) by A0", &cctptypes.MsgUpdateMaxMessageBodySize{From: Owner.Str, MessageSize: 0}), // a scalar whose stored encoding is empty
 		MkSend(UserA.Str, DomEth, distinct32(0x21), []byte("a")),
 		MkSendWithCaller(UserA.Str, DomEth, distinct32(0x21), []byte("a"), distinct32(0x22)),
 		MkDeposit(UserA.Str, math.NewInt(9), DomEth, distinct32(0x24), "uusdc"),
